@@ -5,6 +5,7 @@
 From Coq Require Import List ZArith Bool.
 From V Require Import Gen.Params RunLoop.Model RunLoop.Proofs.
 From V Require ConnIDs.Routing ConnIDs.ProofsRouting.
+From V Require RunLoop.Run RunLoop.SimRun RunLoop.ProofsSim.
 From V Require FrameSorter.Model RecvStream.Model RecvStream.Spec RunLoop.ProofsStreams.
 Import ListNotations.
 Open Scope Z_scope.
@@ -418,6 +419,34 @@ Theorem C17_start_failure_released : forall client sf ampl t elapsed expiry a c,
   close_action client sf ampl (start_failure (EOther t)) <> ActSendClose a c.
 Proof. exact start_failure_released. Qed.
 Print Assumptions C17_start_failure_released.
+
+(** ** The simulated connections (simclose unit)
+
+    Every scenario of the simclose unit — a real client and a real server over the simulated network, ended by one
+    of its causes with calls parked on both sides — logs per side the recorded cause and whether the close was
+    immediate (both read from Conn.closeErr), and the replay [SimRun.check_side] compares the model's predictions
+    with what the API calls returned, what the router saw and what the transports' routing tables hold. For every side the
+    replay accepts: *)
+Theorem C17_simulated_side : forall s, V.RunLoop.SimRun.check_side s = true ->
+  Forall (fun kc => snd kc = 0) (V.RunLoop.SimRun.sd_parked s ++ V.RunLoop.SimRun.sd_later s) /\
+  V.RunLoop.SimRun.sd_routing s = 0 /\
+  (V.RunLoop.SimRun.sd_sent s = true <->
+     is_remote (V.RunLoop.Run.errk_of (V.RunLoop.SimRun.sd_cause s)) = false /\ V.RunLoop.SimRun.sd_immediate s = false /\
+     silent_err (V.RunLoop.Run.errk_of (V.RunLoop.SimRun.sd_cause s)) = false /\
+     (exists isApp code, close_frame (mapped_err {| ce_err := V.RunLoop.Run.errk_of (V.RunLoop.SimRun.sd_cause s);
+                                                      ce_immediate := V.RunLoop.SimRun.sd_immediate s |}) = (isApp, code))) /\
+  (forall p, V.RunLoop.SimRun.sd_peer s = Some p -> V.RunLoop.SimRun.sd_sent s = true /\
+     p = (let '(isApp, code) := close_frame (mapped_err {| ce_err := V.RunLoop.Run.errk_of (V.RunLoop.SimRun.sd_cause s);
+                                                            ce_immediate := V.RunLoop.SimRun.sd_immediate s |}) in
+          (if isApp then 3 else 4, code))).
+Proof. exact V.RunLoop.ProofsSim.accepted_side. Qed.
+Print Assumptions C17_simulated_side.
+
+(** non-vacuity: an observation as logged by a client that closed with application error 52 *)
+Example C17_simulated_side_example :
+  V.RunLoop.SimRun.check_side (V.RunLoop.SimRun.mkSide true (1, 52) false true [(0, 0); (2, 0); (6, 0)] [(8, 0); (7, 0); (1, 0)] 0 (Some (3, 52))) = true.
+Proof. reflexivity. Qed.
+Print Assumptions C17_simulated_side_example.
 
 (** ** Non-vacuity *)
 
